@@ -2,7 +2,7 @@
 import random, re, json
 from ..runner import Check
 from .. import core, gen_rv
-from ..gen_rv import T, CONFIGS, encode, valid_in, word_bytes
+from ..gen_rv import T, CONFIGS, encode, valid_in, word_bytes, s_type, i_type
 
 RV_LEVEL = ("Trace validation against an independent TLA+ transcription of the RISC-V unprivileged specification "
             "(spec/RV.tla: Decode, immediates, Exec with the tool's documented approximations): every recorded "
@@ -387,4 +387,18 @@ class C21(RVCheck):
             addr = rng.choice([0x1000, 0x80000000, 0x10000 if xlen == 32 else 0x7FFFFFFFF000])
             gs.append([{"case": "c%d" % i, "op": "codeparse", "mode": "sem", "variant": xlen, "exts": exts,
                         "addr": addr_bytes(addr), "bytes": [], "image": image, "lo": 0}])
+        # absolute accesses (base register x0): the whole address is a constant of the lifted effect - every store / load
+        # width x immediates on both sides of the byte and halfword boundaries, negative ones included
+        k = n
+        for xlen, exts in ((64, "MA"), (32, "M")):
+            stores = [0, 1, 2] + ([3] if xlen == 64 else [])
+            loads = [0, 1, 2, 4, 5] + ([3, 6] if xlen == 64 else [])
+            for imm in (-2048, -1024, -256, -16, -8, 8, 127, 128, 255, 256, 768, 1024, 2040):
+                words = [s_type(0x23, f3, 0, 5, imm) for f3 in stores] + [i_type(0x03, f3, 6, 0, imm) for f3 in loads]
+                bs = []
+                for w in words:
+                    bs += word_bytes(w)
+                gs.append([{"case": "c%d" % k, "op": "codeparse", "mode": "sem", "variant": xlen, "exts": exts,
+                            "addr": addr_bytes(0x1000), "bytes": [], "image": [{"off": 0, "bytes": bs}], "lo": 0}])
+                k += 1
         return gs
